@@ -389,8 +389,12 @@ class Interp:
                         effects = effects + (('<store>', None, (env.get(st['pl']['l'], UNK), v), st.get('span')),)
                         env[st['pl']['l']] = v
                     else:
-                        effects = effects + (('<store-field>', None, (env.get(st['pl']['l'], UNK), v), st.get('span')),)
-                        env[st['pl']['l']] = UNK
+                        path = tuple((p.get('name') if p.get('name') is not None else p.get('f')) for p in st['pl']['p'] if isinstance(p, dict) and 'f' in p)
+                        effects = effects + (('<store-field>', None, (env.get(st['pl']['l'], UNK), ('c', path), v), st.get('span')),)
+                        base = env.get(st['pl']['l'], UNK)
+                        # keep the base symbolic (a field write does not change the identity of the object)
+                        if base[0] not in ('sym', 'proj', 'app'):
+                            env[st['pl']['l']] = UNK
             t = blk['term']
             k = t['k']
             if k == 'return':
